@@ -71,6 +71,10 @@ def positions(rng, v, tier):
 def backends_for(cfg, tier):
     if cfg.startswith("nosimd"):
         return ["generic"]
+    if cfg.startswith("nostd-"):
+        # no-std build: the dispatch macros select at compile time (`cfg!(target_feature)`), the
+        # harness accepts `cfg backend` only for that backend, the model runs the same backend model
+        return [cfg.split("-")[1]]
     if tier == "quick":
         return ["ref", "sse2"]
     return ["ref", "sse2", "ssse3", "sse41", "avx", "avx2"]
